@@ -211,7 +211,7 @@ CHECKS.update({
              "empty values, values with whitespace resp. newlines); the decoder parse_multiline_as_lines is verified from its AST against "
              "the recursive per-line decoding of s.splitlines() (in-place edit while enumerating; format error exactly when a later "
              "line lacks the leading blank; str.splitlines uninterpreted), and the entry points format_multiline / parse_multiline are verified "
-             "against the contracts of these two (modular calls; None stays None); "
+             "against the contracts of these two (modular calls; None stays None), License.to_str likewise; "
              "the join/splitlines law and whole copyright documents (dump -> strict parse -> dump) are decided by a bounded stand-in: "
              "all line lists of length <= 3/4 over 14 line kinds and seeded documents.",
         technique="contract-based deductive verification of encoder, decoder and list writers + round-trip lemma (SMT) and a bounded stand-in for the join/splitlines law and documents"),
